@@ -2,7 +2,7 @@
    Full-strength statement: C08_statement (Cluster/Statements.v). Proved so far: the theorems below; what is
    not yet proved is decided on every run by the lock-step co-simulation (model = implementation on every
    explored schedule) together with the monitors run on the implementation's own observations. *)
-From RaftV Require Import Cluster.Statements Proofs.RVSpec Proofs.AESpec.
+From RaftV Require Import Cluster.Statements Proofs.RVSpec Proofs.AESpec Proofs.Votes.
 Open Scope N_scope.
 
 (* RequestVote, every voter state x every request *)
@@ -35,3 +35,22 @@ Theorem C08_become_follower_keeps_same_term_vote : forall now n leader term,
   (n_pterm n' = term /\ n_pvote n' = n_vote n' \/ n_pterm n' = n_pterm n /\ n_pvote n' = n_pvote n).
 Proof. exact become_follower_fields. Qed.
 Print Assumptions C08_become_follower_keeps_same_term_vote.
+
+(* The cluster form, at full strength: in every world reachable from any initial cluster by ANY label list
+   (all delivery orders, drops, duplicates, delays, crashes after any number of storage writes, restarts,
+   client calls, membership requests, snapshots) every further step leaves every node's persistent term
+   non-decreasing and, while the term stays, its persistent vote unchanged.  "One vote per term, counting
+   votes granted before a crash" follows: a real grant for candidate c in term t is only produced after
+   (t, c) is on disk (C08_become_follower_keeps_same_term_vote, rv_grant handler lemmas), and from then on
+   the pair can only be replaced by a larger term. *)
+Theorem C08_term_and_vote_durable : C08_statement.
+Proof. exact C08_statement_holds. Qed.
+Print Assumptions C08_term_and_vote_durable.
+
+(* non-vacuity: a concrete schedule in which a node casts a real vote, crashes, restarts, and still holds it *)
+Example C08_nonvacuous :
+  let w := run (init_world [0; 1; 2] [0; 1; 2] 4 2)
+             [LTick 4; LElection 0; LElectionRun 0; LTask 0; LTask 0; LDeliver 0; LReply 0; LElectionRun 0;
+              LTask 0; LTask 0; LDeliver 2; LCrash 1; LRestart 1] in
+  option_map (fun n => (n_pterm n, n_pvote n, n_role n)) (get_node w 1) = Some (1, Some 0, Follower).
+Proof. vm_compute. reflexivity. Qed.
